@@ -257,6 +257,78 @@ theorem join_sp : ∀ l : List Str, Py.join [32] l = joinSp l
     simp only [Py.join, joinSp, List.append_assoc, List.singleton_append] at *
     rw [← join_sp (y :: r)]
 
+/-! ### primitives of the second loop -/
+
+theorem table_exc : PyLic.table "EXCEPTIONS" = some Gen.SpdxTables.exceptions := by
+  simp [PyLic.table]
+theorem table_lic : PyLic.table "LICENSES" = some Gen.SpdxTables.licenses := by
+  simp [PyLic.table]
+
+theorem tbl_has_exc (t : Str) :
+    PyLic.tbl_has "EXCEPTIONS" (.str t) = .ok (findId Gen.SpdxTables.exceptions t).isSome := by
+  simp only [PyLic.tbl_has, table_exc, pure_ok]
+theorem tbl_has_lic (t : Str) :
+    PyLic.tbl_has "LICENSES" (.str t) = .ok (findId Gen.SpdxTables.licenses t).isSome := by
+  simp only [PyLic.tbl_has, table_lic, pure_ok]
+theorem tbl_id_exc (t : Str) :
+    PyLic.tbl_id "EXCEPTIONS" (.str t) =
+      match findId Gen.SpdxTables.exceptions t with | some i => .ok (.str i) | none => .error "KeyError" := by
+  simp only [PyLic.tbl_id, table_exc]
+  cases findId Gen.SpdxTables.exceptions t <;> rfl
+theorem tbl_id_lic (t : Str) :
+    PyLic.tbl_id "LICENSES" (.str t) =
+      match findId Gen.SpdxTables.licenses t with | some i => .ok (.str i) | none => .error "KeyError" := by
+  simp only [PyLic.tbl_id, table_lic]
+  cases findId Gen.SpdxTables.licenses t <;> rfl
+
+theorem getitem_last (l : List Str) (w : Str) :
+    getitem (.list ((l ++ [w]).map .str)) (.int (-1)) = .ok (.str w) := by
+  have h1 : normIndex ((l ++ [w]).map PyVal.str).length (-1) = some l.length := by
+    simp [normIndex]
+  simp only [getitem, asInt, h1, pure_ok]
+  simp
+
+theorem getslice_str_dropLast (s : Str) : getslice (.str s) .none (.int (-1)) = .ok (.str s.dropLast) := by
+  have h1 : ¬ (0 ≤ (-1 : Int)) := by omega
+  have h2 : (- (-1 : Int)).toNat = 1 := by decide
+  simp only [getslice, clampBound_none, clampBound, asInt, h1, if_false, h2, ok_bind, pure_ok, sliceList, List.drop_zero,
+    List.dropLast_eq_take]
+  congr 3
+  omega
+
+theorem getslice_str_from (s : Str) (k : Nat) : getslice (.str s) (.int k) .none = .ok (.str (s.drop k)) := by
+  simp only [getslice, clampBound_nat, clampBound_none, ok_bind, pure_ok, sliceList, List.take_length]
+  congr 2
+  by_cases h : k ≤ s.length
+  · rw [Nat.min_eq_left h]
+  · rw [Nat.min_eq_right (by omega), List.drop_of_length_le (by omega), List.drop_of_length_le (by omega)]
+
+theorem getslice_str_11 (s : Str) : getslice (.str s) (.int 11) .none = .ok (.str (s.drop 11)) :=
+  getslice_str_from s 11
+
+theorem len_ref : len (.str [76, 105, 99, 101, 110, 115, 101, 82, 101, 102, 45]) = .ok (.int 11) := by rfl
+theorem str_upper_str (s : Str) : str_upper (.str s) = .ok (.str (s.map upperAscii)) := by rfl
+theorem str_startswith_str (s p : Str) : str_startswith (.str s) (.str p) = .ok (.bool (startsWith s p)) := by rfl
+theorem str_endswith_str (s p : Str) : str_endswith (.str s) (.str p) = .ok (.bool (endsWith s p)) := by rfl
+theorem add_str (a b : Str) : add (.str a) (.str b) = .ok (.str (a ++ b)) := by rfl
+theorem ref_match_str (s : Str) :
+    PyLic.ref_match (.str s) = .ok (if refAllowed s then .obj "re.Match" [("groups", .tuple [])] else .none) := by rfl
+
+theorem isGrammar_eq (t : Str) :
+    (t == [111, 114] || (t == [97, 110, 100] || (t == [119, 105, 116, 104] || (t == [40] || t == [41])))) =
+      isGrammar t := by
+  simp [isGrammar, kOr, kAnd, kWith, kLP, kRP, Bool.or_assoc]
+
+theorem upper_grammar {t : Str} (h : isGrammar t = true) : t.map upperAscii = upperOp t := by
+  simp only [isGrammar, Bool.or_eq_true, beq_iff_eq] at h
+  rcases h with (((h | h) | h) | h) | h <;> subst h <;> decide
+
+theorem eq_nil_or_snoc (acc : List Str) : acc = [] ∨ ∃ l w, acc = l ++ [w] := by
+  rcases List.eq_nil_or_concat acc with h | ⟨l, w, h⟩
+  · exact .inl h
+  · exact .inr ⟨l, w, by rw [h, List.concat_eq_append]⟩
+theorem snoc_isEmpty {α} (l : List α) (w : α) : (l ++ [w]).isEmpty = false := by cases l <;> rfl
+
 theorem unpack2_tuple (a b : PyVal) : unpack2 (.tuple [a, b]) = .ok (a, b) := by rfl
 
 theorem str_split0_str (s : Str) : PyLic.str_split0 (.str s) = .ok (.list ((Lic.split s).map .str)) := by rfl
@@ -270,6 +342,12 @@ local macro "step_simp" "[" ts:Lean.Parser.Tactic.simpLemma,* "]" : tactic =>
   `(tactic| simp [step, kstr, Lic.Kind.opens, Lic.Kind.closes, eq_str, contains_set_str, s_lp, s_rp, s_or, s_and, s_with,
       s_operator, s_license, s_exception, add_nat_one, gt_int, PyRt.eq, Lic.kLP, Lic.kRP, Lic.kOr, Lic.kAnd, Lic.kWith,
       $ts,*])
+
+/-- evaluation of the word branch of the second loop once the tests are known -/
+local macro "word_simp" "[" ts:Lean.Parser.Tactic.simpLemma,* "]" : tactic =>
+  `(tactic| simp [Lic.normWord, Lic.kWithU, Lic.kRefLower, Lic.kRef, Lic.cPlus, str_endswith_str, str_startswith_str,
+      getslice_str_dropLast, getslice_str_11, len_ref, ref_match_str, add_str, tbl_has_exc, tbl_has_lic, tbl_id_exc, tbl_id_lic,
+      list_append_list, $ts,*])
 
 theorem canonicalize_license_expression_eq_model (raw : Str) :
     Gen.PySrc.canonicalize_license_expression (.str raw) =
@@ -350,7 +428,26 @@ theorem canonicalize_license_expression_eq_model (raw : Str) :
           subst hn
           simp only [pairVal, unpack2_tuple, ok_bind, contains_set_str, List.any_cons, List.any_nil, eq_str, Bool.or_false,
             s_or, s_and, s_with, s_WITH, s_plus, s_ref, s_reflower, s_empty]
-          trace_state
-          sorry
+          simp only [isGrammar_eq, normStep]
+          by_cases hg : Lic.isGrammar t = true
+          · simp only [hg, if_true, str_upper_str, list_append_list, ok_bind, upper_grammar hg]
+            exact ⟨_, rfl, by simp⟩
+          have hg' : Lic.isGrammar t = false := by simpa using hg
+          simp only [hg', Bool.false_eq_true, if_false]
+          rcases eq_nil_or_snoc acc with rfl | ⟨l, w, rfl⟩
+          · simp only [List.map_nil, truthy_list, List.isEmpty_nil, Bool.not_true, Bool.false_eq_true, if_false, ok_bind,
+              List.getLast?_nil]
+            cases hp : endsWith t [Lic.cPlus] <;> simp only [Lic.cPlus] at hp
+            · cases hs : startsWith t Lic.kRefLower <;> simp only [Lic.kRefLower] at hs
+              · cases hf : Lic.findId Gen.SpdxTables.licenses t <;> word_simp [hp, hs, hf]
+              · cases hr : Lic.refAllowed (o.drop 11) <;> word_simp [hp, hs, hr]
+            · cases hs : startsWith t.dropLast Lic.kRefLower <;> simp only [Lic.kRefLower] at hs
+              · cases hf : Lic.findId Gen.SpdxTables.licenses t.dropLast <;> word_simp [hp, hs, hf]
+              · cases hr : Lic.refAllowed (o.drop 11) <;> word_simp [hp, hs, hr]
+          · simp only [getitem_last, truthy_list, List.isEmpty_map, snoc_isEmpty, Bool.and_false,
+              Bool.not_false, if_true, ok_bind, PyRt.eq, eq_str, truthy_bool, List.getLast?_append, List.getLast?_singleton,
+              Option.some_or]
+            trace_state
+            sorry
 
 end Src
